@@ -39,11 +39,15 @@ func poolGenesis() *types.AppState {
 	orders := []types.Order{
 		{IsSale: true, Volume0: e18(1010).String(), Volume1: e18(1000).String(), ID: 1, Owner: C, Height: BaseHeight},
 		{IsSale: false, Volume0: e18(1000).String(), Volume1: e18(1010).String(), ID: 2, Owner: C, Height: BaseHeight},
+		// order 3: a tiny order buying 0.05 TOKA at 1-10^-6 BIP, right below the pool price: the first
+		// TOKA->BIP swap of commission size (0.1 TOKA moves the pool price by 2*10^-6) consumes it completely
+		{IsSale: false, Volume0: "49999950000000000", Volume1: "50000000000000000", ID: 3, Owner: C, Height: BaseHeight},
 	}
 	g.Pool(1, 0, PoolTokA, e18(100000), e18(100000), orders)
-	g.S.NextOrderID = 3
+	g.S.NextOrderID = 4
 	// carol's balances already exclude the escrow: BIP 1,000,000-1000 handled here
 	g.Bal(C, 0, new(big.Int).Neg(e18(1000)))
+	g.Bal(C, 0, new(big.Int).Neg(I("49999950000000000")))
 	g.Pool(2, PoolTokA, PoolTokB, e18(50000), e18(100000), nil)
 	g.Pool(3, PoolTokB, PoolTokC, e18(10000), e18(40000), nil)
 	g.Token(PoolLP1, "LP-1", e18(100000), huge, true, true, nil)
@@ -91,6 +95,8 @@ func init() {
 			sell("B sell 100 BIP->TOKA->TOKB->TOKC (3 hops)", B, ids(0, PoolTokA, PoolTokB, PoolTokC), e18(100), zero, 0),
 			sell("B sell 100 TOKB->TOKA gas TOKA", B, ids(PoolTokB, PoolTokA), e18(100), zero, PoolTokA),
 			sell("C sell 100 TOKA->BIP gas TOKA (maker in commission pool)", C, ids(PoolTokA, 0), e18(100), zero, PoolTokA),
+			sell("D (no funds) sell 100 TOKA->BIP gas TOKA (rejected after the commission swap was simulated)", K("dave"), ids(PoolTokA, 0), e18(100), zero, PoolTokA),
+			sell("B sell 1 TOKA->BIP gas TOKA, minimum too high (rejected after the simulation)", B, ids(PoolTokA, 0), e18(1), e18(5), PoolTokA),
 			buy("B buy 100 TOKA with BIP", B, ids(0, PoolTokA), e18(100), huge, 0),
 			buy("B buy 100 TOKA with BIP max too low", B, ids(0, PoolTokA), e18(100), e18(100), 0),
 			buy("B buy 1500 TOKA with BIP (crosses order 1)", B, ids(0, PoolTokA), e18(1500), huge, 0),
